@@ -135,6 +135,7 @@ def conclude(prop: str, check: Any, tier: str, seed: int, specs: List[Dict[str, 
     hashes = set()
     inconclusive: List[str] = []
     evaluations = 0
+    distinct_extra = 0
     if os.environ.get('VERIF_VERBOSE'):
         for spec, res in zip(specs, results):
             print(f'  shard {res["shard"]} kind={spec.get("kind")} rc={res["rc"]} wall={res["wall_s"]:.1f}s')
@@ -155,6 +156,7 @@ def conclude(prop: str, check: Any, tier: str, seed: int, specs: List[Dict[str, 
                 samples.append(s)
         hashes.update(res.get('hashes', []))
         evaluations += int(res.get('evaluations', 0))
+        distinct_extra += int(res.get('distinct_extra', 0))  # distinct cases counted inside the shard (too many to ship as hashes)
         inconclusive.extend(res.get('inconclusive', []))
 
     post = getattr(check, 'post_process', None)
@@ -163,7 +165,7 @@ def conclude(prop: str, check: Any, tier: str, seed: int, specs: List[Dict[str, 
             post(workdir, merged)
         except Exception as exc:  # noqa: B902
             inconclusive.append(f'post-processing failed: {exc!r}')
-    final = check.finalize(tier, seed, merged, evaluations, len(hashes))
+    final = check.finalize(tier, seed, merged, evaluations, len(hashes) + distinct_extra)
     inconclusive.extend(final.get('inconclusive', []))
 
     known = findings.load()
@@ -179,7 +181,7 @@ def conclude(prop: str, check: Any, tier: str, seed: int, specs: List[Dict[str, 
 
     coverage = dict(final.get('coverage', {}))
     coverage.setdefault('evaluations', evaluations)
-    coverage.setdefault('distinct_nontrivial', len(hashes))
+    coverage.setdefault('distinct_nontrivial', len(hashes) + distinct_extra)
     coverage.setdefault('samples', samples or ['(no sample recorded)'])
     coverage['counters'] = merged
     coverage['known_findings_observed'] = {k: v['count'] for k, v in known_seen.items()}
